@@ -237,21 +237,41 @@ def rule_gain(repo, tier):
     if not loops:
         raise AnalysisError('C14.GAIN: backward recursion loop not found')
     loop = loops[0]
+    # roles, not names: H = the matrix whose [n:, n:] / [n:, :n] blocks are extracted, g = the vector split at the same n
+    def pat(sl):
+        if isinstance(sl, ast.Slice) and sl.step is None:
+            if isinstance(sl.lower, ast.Name) and sl.upper is None:
+                return ('from', sl.lower.id)
+            if isinstance(sl.upper, ast.Name) and sl.lower is None:
+                return ('to', sl.upper.id)
+        return None
+    Hname = gname = nname = None
+    for n_ in ast.walk(loop):
+        if isinstance(n_, ast.Subscript) and isinstance(n_.value, ast.Name) and isinstance(n_.slice, ast.Tuple) and \
+                isinstance(n_.slice.elts[0], ast.Constant) and n_.slice.elts[0].value is Ellipsis:
+            ps = [pat(x) for x in n_.slice.elts[1:]]
+            if len(ps) == 2 and ps[0] and ps[1] and ps[0][0] == 'from' and ps[1][0] == 'from' and ps[0][1] == ps[1][1]:
+                Hname, nname = n_.value.id, ps[0][1]
+    for n_ in ast.walk(loop):
+        if isinstance(n_, ast.Subscript) and isinstance(n_.value, ast.Name) and isinstance(n_.slice, ast.Tuple) and len(n_.slice.elts) == 2 and \
+                isinstance(n_.slice.elts[0], ast.Constant) and n_.slice.elts[0].value is Ellipsis and pat(n_.slice.elts[1]) == ('from', nname) \
+                and n_.value.id != Hname:
+            gname = n_.value.id
+    if not (Hname and gname and nname):
+        raise AnalysisError('C14.GAIN: the block split of the value-function Hessian / gradient was not found in the backward recursion')
     inl = Inliner()
     for st in loop.body:
         if isinstance(st, ast.If):
-            # Qt / qt are defined in both branches: treat them as the opaque blocks of this iteration
-            inl.env['Qt'] = ast.Name('$Qt', ast.Load())
-            inl.env['qt'] = ast.Name('$qt', ast.Load())
+            # H / g are defined in both branches: treat them as the opaque blocks of this iteration
+            inl.env[Hname] = ast.Name('$Qt', ast.Load())
+            inl.env[gname] = ast.Name('$qt', ast.Load())
             continue
         inl.feed(st)
-    def blk(s_):
-        return dump(ast.parse(s_, mode='eval').body)
-    Quu, Qux, qu = blk('$Qt[..., ns:, ns:]') if False else None, None, None
-    want_Quu = ast.parse('Qt[..., ns:, ns:]', mode='eval').body
-    want_Qux = ast.parse('Qt[..., ns:, :ns]', mode='eval').body
-    want_qu = ast.parse('qt[..., ns:]', mode='eval').body
-    sub = {'Qt': ast.Name('$Qt', ast.Load()), 'qt': ast.Name('$qt', ast.Load())}
+    sub = {Hname: ast.Name('$Qt', ast.Load()), gname: ast.Name('$qt', ast.Load())}
+    want_Quu = ast.parse('%s[..., %s:, %s:]' % (Hname, nname, nname), mode='eval').body
+    want_Qux = ast.parse('%s[..., %s:, :%s]' % (Hname, nname, nname), mode='eval').body
+    want_Qxu = ast.parse('%s[..., :%s, %s:]' % (Hname, nname, nname), mode='eval').body
+    want_qu = ast.parse('%s[..., %s:]' % (gname, nname), mode='eval').body
     dQuu, dQux, dqu = dump(subst(want_Quu, sub)), dump(subst(want_Qux, sub)), dump(subst(want_qu, sub))
     chol = [c for c in paths.calls_in(loop) if (dotted(c.func) or '').split('.')[-1] == 'cholesky']
     solves = [c for c in paths.calls_in(loop) if (dotted(c.func) or '').split('.')[-1] == 'cholesky_solve']
@@ -272,7 +292,7 @@ def rule_gain(repo, tier):
             core = core.func.value
         which = 'Qux' if dump(core) == dQux else 'qu' if dump(core) == dqu else None
         if which is None and isinstance(core, ast.Attribute) and core.attr in ('mT', 'T') and \
-                dump(core.value) == dump(subst(ast.parse('Qt[..., :ns, ns:]', mode='eval').body, sub)):
+                dump(core.value) == dump(subst(want_Qxu, sub)):
             which = 'Qux'       # the Hessian is symmetric: Qxu^T is Qux
         fac = inl.value(c.args[1]) if len(c.args) > 1 else None
         fac_ok = isinstance(fac, ast.Call) and (dotted(fac.func) or '').split('.')[-1] == 'cholesky'
@@ -283,14 +303,14 @@ def rule_gain(repo, tier):
         if not fac_ok:
             res.add(Finding('C14.GAIN', f, 'cholesky_solve is not given a Cholesky factor', node=c))
     if seen >= {'Qux', 'qu'}:
-        # signs: K_t and k_t are the negated solves
-        for tname in ('Kt', 'kt'):
-            v = inl.env.get(tname)
-            if v is not None:
+        # signs: the gains are the negated solves (every value derived directly from a cholesky_solve and stored/bound)
+        for st in loop.body:
+            if isinstance(st, ast.Assign) and any((dotted(c.func) or '').split('.')[-1] == 'cholesky_solve' for c in paths.calls_in(st.value)):
+                v = st.value
                 neg = isinstance(v, ast.UnaryOp) and isinstance(v.op, ast.USub)
-                res.inst({'function': f.fq, 'gain': tname, 'negated': neg}, tname)
+                res.inst({'function': f.fq, 'gain': src(st.targets[-1])[:20], 'negated': neg}, src(st.targets[-1]))
                 if not neg:
-                    res.add(Finding('C14.GAIN', f, '%s is not the negated solve' % tname, construct='sign ' + tname))
+                    res.add(Finding('C14.GAIN', f, 'gain `%s` is not the negated solve' % src(st.targets[-1])[:20], node=st))
     return res
 
 
